@@ -390,6 +390,19 @@ func (s *Sched) Trigger() *interfaces.ElectionTrigger {
 	return MakeTrigger(h, v, cb)
 }
 
+// LastArmedBefore: the latest registration that is lexicographically older than (h, v).
+func (s *Sched) LastArmedBefore(h primitives.BlockHeight, v primitives.View) (primitives.BlockHeight, primitives.View, bool) {
+	s.mu.Lock()
+	defer s.mu.Unlock()
+	for i := len(s.Log) - 1; i >= 0; i-- {
+		r := s.Log[i]
+		if r.H < h || (r.H == h && r.V < v) {
+			return r.H, r.V, true
+		}
+	}
+	return 0, 0, false
+}
+
 // TriggerFor builds a trigger for an arbitrary pair using the currently registered callback (stale / future triggers).
 func (s *Sched) TriggerFor(h primitives.BlockHeight, v primitives.View) *interfaces.ElectionTrigger {
 	s.mu.Lock()
